@@ -249,7 +249,10 @@ func (em *emitter) emitNodes(nodes []ast.Node) {
 				returnedRegs, types := em.emitCallNode(node.Values[0].(*ast.Call), false, false, runtime.ReturnString)
 				for i, typ := range types {
 					var dstReg int8
-					switch kindToType(typ.Kind()) {
+					// The destination register is a register of the type
+					// of the result, that can be an interface type while
+					// the type of the returned value is not.
+					switch kindToType(fnType.Out(i).Kind()) {
 					case intRegister:
 						offset[0]++
 						dstReg = offset[0]
